@@ -35,13 +35,14 @@ ASSUMPTIONS = ['a stream socket never returns more than asked, never reorders or
                'send() accepts between 1 and len(data) bytes when there is room',
                'oracle: independent model over the remaining stream (what happens when the whole stream arrives at once)',
                'sizes passed to recv_size/peek/recv are >= 1; retries after Timeout / EWOULDBLOCK repeat the same call',
-               'threads mode: 2-3 caller threads receive from one BufferedSocket in blocking mode; pre-emption points are the lock operations and every socket call (not every bytecode); the calls must be explainable by SOME order that keeps each thread\'s own order (each call atomic on the stream), and nothing may be lost',
+               'threads mode: 2-3 caller threads receive from one BufferedSocket in blocking mode; pre-emption points are every bytecode of socketutils.py, the lock operations and every socket call; sender threads likewise (send/sendall/buffer/flush): the peer must get the chunks of every thread whole, once, in the order of that thread; the calls must be explainable by SOME order that keeps each thread\'s own order (each call atomic on the stream), and nothing may be lost',
                'netstrings: C12 promises retry-after-Timeout for the recv_* family only, read_ns is not retry-safe in mid-frame; the simulated reader therefore sees gaps longer than its timeout only between frames']
 
 SELFTEST_MUTANT = 'recv-split-off-by-one'
 REQUIRED_PROBES = ['delimiter_straddles_recv', 'size_met_at_recv_edge', 'timeout_with_partial_data',
                    'ewouldblock_with_partial_data', 'message_too_long', 'partial_send', 'send_timeout_with_unsent',
-                   'ns_roundtrip_frames', 'timeout', 'send_timeout', 'threads_interleaved_on_one_socket']
+                   'ns_roundtrip_frames', 'timeout', 'send_timeout', 'threads_interleaved_on_one_socket',
+                   'sender_threads_interleaved_on_one_socket']
 su = None   # boltons.socketutils, set by setup()
 
 DELIMS = [b'|', b'\n', b'\r\n', b'||', b'\r\n\r\n', b'ab', b'aba', b'|a|', b'\r', b'a|']
@@ -51,6 +52,10 @@ def setup(root):
     global su
     import boltons.socketutils as m
     su = m
+    # caller threads sharing one socket are pre-empted at every bytecode of socketutils.py (as C03 does for
+    # cacheutils.py); the instrumentation is switched on only for the duration of a threaded run
+    from engines import threadsim
+    threadsim.install_dormant(m)
 
 
 # ------------------------------------------------------------------------------
@@ -164,8 +169,33 @@ def _gen_threads(rng, tier):
             'sched': {'kind': 'random', 'seed': rng.getrandbits(32), 'p': rng.choice([0.2, 0.5, 0.8])}}
 
 
+def _gen_send_threads(rng, tier):
+    """Two or three caller threads send/buffer/flush through one BufferedSocket (blocking mode, partial sends)."""
+    threads = []
+    tag = 0
+    for _t in range(rng.choice([2, 2, 3])):
+        ops = []
+        for _ in range(rng.randint(1, 3)):
+            tag += 1
+            data = bytes([0x40 + tag]) * rng.choice([1, 2, 3, 5, 9])       # every chunk is recognisable
+            k = rng.random()
+            if k < 0.3:
+                ops.append(['send', data.hex()])
+            elif k < 0.5:
+                ops.append(['sendall', data.hex()])
+            elif k < 0.85:
+                ops.append(['buffer', data.hex()])
+            else:
+                ops.append(['flush'])
+        threads.append(ops)
+    return {'mode': 'send-threads', 'send_split': _gen_split(rng), 'threads': threads,
+            'sched': {'kind': 'random', 'seed': rng.getrandbits(32), 'p': rng.choice([0.05, 0.2, 0.5])}}
+
+
 def gen_case(rng, tier):
     r = rng.random()
+    if r < 0.02:
+        return _gen_send_threads(rng, tier)
     if r < 0.04:
         return _gen_threads(rng, tier)
     if r < 0.62:
@@ -389,10 +419,9 @@ def _run_threads(case):
     from engines import threadsim
     out = core.Outcome()
     log = core.EventLog(keep=False)
-    threadsim.enable_without_tracing()
     stream = bytes.fromhex(case['stream'])
     nthreads = len(case['threads'])
-    sched = threadsim.Scheduler(threadsim.make_policy(case['sched'], nthreads), log, step_cap=4000 + 40 * len(stream))
+    sched = threadsim.Scheduler(threadsim.make_policy(case['sched'], nthreads), log, step_cap=60000 + 4000 * len(stream))
     clock = SimClock(log, 0.0)
     _install_clock(clock)
     sock = SimSocket(clock, log, stream=stream, inbound=case['deliveries'], close_gap=0.0,
@@ -431,7 +460,11 @@ def _run_threads(case):
 
     for tid, ops in enumerate(case['threads']):
         sched.spawn(program(tid, ops))
-    reason = sched.run()
+    threadsim.tracing(su, True)
+    try:
+        reason = sched.run()
+    finally:
+        threadsim.tracing(su, False)
     out.steps = sched.step
     out.sim_time = float(sched.step)
     if sched.contended:
@@ -490,7 +523,83 @@ def _run_threads(case):
     return out
 
 
+def _run_send_threads(case):
+    from engines import threadsim
+    out = core.Outcome()
+    log = core.EventLog(keep=False)
+    nthreads = len(case['threads'])
+    total = sum(len(op[1]) // 2 for t in case['threads'] for op in t if len(op) > 1)
+    sched = threadsim.Scheduler(threadsim.make_policy(case['sched'], nthreads), log, step_cap=120000 + 6000 * total)
+    clock = SimClock(log, 0.0)
+    _install_clock(clock)
+    sock = SimSocket(clock, log, sndbuf=1 << 30, drains=[], send_split=case['send_split'], call_cap=40 * (total + 10))
+    real_rlock = su.RLock
+    su.RLock = lambda *a, **k: threadsim.SimRLock(sched)
+    try:
+        bs = su.BufferedSocket(_YieldingSock(sock, sched), timeout=None)
+    finally:
+        su.RLock = real_rlock
+    errors = []
+
+    def program(tid, ops):
+        def run():
+            for i, op in enumerate(ops):
+                sched.yield_point(('invoke', tid, i))
+                try:
+                    if op[0] == 'flush':
+                        bs.flush()
+                    else:
+                        getattr(bs, op[0])(bytes.fromhex(op[1]))
+                except threadsim.SimAbort:
+                    raise
+                except Exception as e:
+                    errors.append((tid, op, '%s: %s' % (type(e).__name__, e)))
+                sched.yield_point(('return', tid, i))
+        return run
+
+    for tid, ops in enumerate(case['threads']):
+        sched.spawn(program(tid, ops))
+    threadsim.tracing(su, True)
+    try:
+        reason = sched.run()
+    finally:
+        threadsim.tracing(su, False)
+    out.steps = sched.step
+    out.sim_time = float(sched.step)
+    if sched.contended:
+        out.probe('send_lock_contended', sched.contended)
+    if reason == 'deadlock':
+        out.fail('deadlock', sched.step, 'sender threads of one BufferedSocket block each other for ever', mode='send-threads')
+    elif reason == 'no-progress':
+        out.fail('no-progress', sched.step, 'more than %d scheduler steps' % sched.step_cap, mode='send-threads')
+    elif any(l.owner is not None for l in sched.locks):
+        out.fail('lock-leaked', sched.step, 'all sender threads finished but a BufferedSocket lock is still held', mode='send-threads')
+    elif errors:
+        out.fail('unexpected-exception', 0, 'thread %d %r raised %s' % errors[0], mode='send-threads')
+    if out.violation is None:
+        try:
+            bs.flush()
+        except Exception as e:
+            out.fail('unexpected-exception', 0, 'final flush raised %r' % (e,), mode='send-threads')
+    if out.violation is None:
+        sock._pump()
+        wire = bytes(sock.peer_got) + bytes(sock.kbuf) + bytes(bs.getsendbuffer())
+        chunks = [[bytes.fromhex(op[1]) for op in t if len(op) > 1] for t in case['threads']]
+        ok = any(b''.join(order) == wire for order in _merges(chunks))
+        if not ok:
+            out.fail('send-bytes-not-conserved', 0, 'sender threads submitted %r; the peer got %r: not the chunks of every thread, whole, '
+                     'each exactly once, in that thread\'s order' % (chunks, wire), mode='send-threads')
+        elif sched.switches:
+            out.probe('sender_threads_interleaved_on_one_socket')
+            out.nontrivial.append(core.h64(['send-threads', case['threads'], case['send_split'],
+                                            [(f, t) for _s, f, t, _w in sched.switches]]))
+    out.digest = log.digest()
+    return out
+
+
 def run_case(case):
+    if case.get('mode') == 'send-threads':
+        return _run_send_threads(case)
     if case.get('mode') == 'threads':
         return _run_threads(case)
     mode = case['mode']
@@ -1043,7 +1152,7 @@ def _run_ns(case):
 
 def shrink(case, fails):
     c = dict(case)
-    if c['mode'] == 'threads':
+    if c['mode'] in ('threads', 'send-threads'):
         # the schedule is re-searched for every candidate: a smaller program needs other switch points
         from simkit.core import ddmin
         best = [c]
@@ -1066,9 +1175,12 @@ def shrink(case, fails):
         ths = [t for t in best[0]['threads'] if t]
         if ths and len(ths) < len(best[0]['threads']):
             fss(dict(best[0], threads=ths))
-        shrinkers.shrink_hex_field(best[0], 'stream', fss)
-        for simple in ({'recv_split': [0]}, {'recvsize': None}):
-            fss(dict(best[0], **simple))
+        if c['mode'] == 'threads':
+            shrinkers.shrink_hex_field(best[0], 'stream', fss)
+            for simple in ({'recv_split': [0]}, {'recvsize': None}):
+                fss(dict(best[0], **simple))
+        else:
+            fss(dict(best[0], send_split=[0]))
         return best[0]
     if c['mode'] == 'recv':
         c = shrinkers.shrink_list_field(c, 'ops', fails)
